@@ -183,6 +183,13 @@ theorem introspect_ok {env : Env} (henv : EnvNamed env) {t : Ty} {md : Meta} (h 
 
 /-! ## the shape of a built operation -/
 
+theorem nodup_map_of_inj {α β} {f : α → β} (hf : ∀ a b, f a = f b → a = b) : ∀ {l : List α}, l.Nodup → (l.map f).Nodup
+  | [], _ => by simp
+  | x :: xs, h => by
+    rw [nodup_cons] at h
+    simp only [map_cons, nodup_cons, mem_map, not_exists, not_and]
+    exact ⟨fun y hy e => h.1 (by rw [← hf _ _ e]; exact hy), nodup_map_of_inj hf h.2⟩
+
 structure OpShape {σ} (route : B) (o : Operation σ) : Prop where
   params : ∀ p ∈ o.params, ParamOK p
   nodup : (pairsOf o.params).Nodup
@@ -194,7 +201,7 @@ theorem pathParams_ok {path : B} (hv : validatePath path = true) : ∀ p ∈ ext
   intro p hp
   simp only [extractPathParams, mem_map] at hp
   obtain ⟨n, hn, rfl⟩ := hp
-  exact ⟨(validatePath_names hv).1 n hn, by decide, fun _ => rfl⟩
+  exact ⟨(validatePath_names hv).1 n hn, (by decide : s "path" ∈ locs), fun _ => rfl⟩
 
 theorem pairsOf_pathParams (path : B) :
     pairsOf (extractPathParams path) = (routeParamNames path).map fun n => (s "path", n) := by
@@ -211,7 +218,7 @@ theorem opParams_shape (env : Env) (md : Option Meta) (path : B) (st : Schemas) 
   | none =>
     refine ⟨pathParams_ok hv, ?_, ?_⟩
     · rw [pairsOf_pathParams]
-      exact hnd.map (fun a b h => by simpa using h)
+      exact nodup_map_of_inj (fun a b h => by simpa using h) hnd
     · intro n hn
       rw [pairsOf_pathParams]
       exact mem_map.2 ⟨n, hn, rfl⟩
@@ -234,7 +241,7 @@ theorem opParams_shape (env : Env) (md : Option Meta) (path : B) (st : Schemas) 
           (filter_sublist (l := extractPathParams path)).map _
         refine Nodup.sublist this ?_
         rw [pairsOf_pathParams]
-        exact hnd.map (fun a b h => by simpa using h)
+        exact nodup_map_of_inj (fun a b h => by simpa using h) hnd
       · intro a ha b hb hab
         subst hab
         simp only [mem_map, mem_filter] at hb
